@@ -3,6 +3,7 @@ package codec
 import (
 	"encoding/json"
 	"fmt"
+	"sort"
 
 	"github.com/onflow/cadence"
 
@@ -78,6 +79,21 @@ func agree(v cadence.Value) (class string, detail string) {
 			return "dontcare:nil-of-nested-optional-type", a + " vs " + b
 		}
 		return "values-differ", fmt.Sprintf("json-decoded %s\nccf-decoded  %s", trunc(a, 500), trunc(b, 500))
+	}
+	// the types carried as data must also be equal by the library's own notion
+	// (two authorization sets with one member have the same ID but may differ in kind)
+	var ta, tb []cadence.Type
+	embeddedTypes(jd.val, &ta)
+	embeddedTypes(cd.val, &tb)
+	if len(ta) == len(tb) {
+		key := func(t cadence.Type) string { return cdcval.DumpType(t, cdcval.TInline, true) }
+		sort.SliceStable(ta, func(i, j int) bool { return key(ta[i]) < key(ta[j]) })
+		sort.SliceStable(tb, func(i, j int) bool { return key(tb[i]) < key(tb[j]) })
+		for i := range ta {
+			if eq, _ := typesEqualAPI(ta[i], tb[i]); !eq {
+				return "embedded-types-not-Equal", fmt.Sprintf("json-decoded %s\nccf-decoded  %s", trunc(key(ta[i]), 300), trunc(key(tb[i]), 300))
+			}
+		}
 	}
 	n := 0
 	if m := typeIDMismatch(jd.val, cd.val, "", &n); m != "" {
